@@ -8,7 +8,11 @@
       density (relative tolerance) — the model answers what the specification demands.
     @ draw <μ> <σ²> <k> <source>
         → some n=<k> consumed=<c> samples=<…> | none consumed=<c>
-    @ mv <N> <k> mean=<…> cov=<…> src=<…> names=<samples>,<features> via=matrix|tensor [ty=rat]
+    @ drawf <μ> <σ²> <k> <source>    (f64)
+        → some n=<k> consumed=<c> samples=ok | none consumed=<c>
+      the harness compares the float samples bit for bit with the documented Box–Muller formula of
+      the consumed numbers (±inf / NaN included); the model supplies count and consumption
+    @ mv <N> <k> mean=<…> cov=<…> src=<…> names=<samples>,<features> via=matrix|tensor [ty=rat] [mname=<mean's name> cnames=<covariance's names>]
         → some shape=<s>:<k>,<f>:<N> consumed=<c> values=<…> | none consumed=<c> | panic(explicit)
     @ approx <fp|rat> <data>                                   → mean=<…> variance=<…> | panic(explicit)
     @ new matrix <meanRows> <meanCols> <covRows> <covCols>     → ok ## accessors=ok | panic(explicit)
@@ -62,16 +66,20 @@ def showVals (sh : α → String) (l : List α) : String :=
 
 /-- one multivariate draw at the element type `α` (`Fp`, or `Rat` for the singular covariances
     that must be rejected before any transcendental function is needed) -/
-def answerMv (sh : α → String) (n k : Nat) (mean cov source : List α) (names : List String) : String :=
+def answerMv (sh : α → String) (n k : Nat) (mean cov source : List α) (names own : List String) : String :=
   let covariance : Matrix α := ⟨cov, n, n⟩
   let sameNames := names.getD 0 "" == names.getD 1 ""
   let shape := s!"{names.getD 0 ""}:{k},{names.getD 1 ""}:{n}"
   let (r, rest) := mvDrawTensor mean covariance source k (names.getD 0 "") (names.getD 1 "")
   let used := source.length - rest.length
-  let model := match r with
-    | .panic kind => s!"panic({kind})"
-    | .ok none => s!"none consumed={used}"
-    | .ok (some m) =>
+  -- the name checks of the code, run with the distribution's own names (`mname=`, `cnames=`)
+  let nameCheck := mvNameChecks (own.getD 0 "means") (own.getD 1 "u") (own.getD 2 "v")
+    (names.getD 0 "") (names.getD 1 "")
+  let model := match nameCheck, r with
+    | .panic kind, _ => s!"panic({kind}) in the name checks"
+    | _, .panic kind => s!"panic({kind})"
+    | _, .ok none => s!"none consumed={used}"
+    | _, .ok (some m) =>
       s!"some shape={names.getD 0 ""}:{m.rows},{names.getD 1 ""}:{m.columns} consumed={used} " ++
       s!"values={showVals sh m.data}"
   let c := Spec.Gaussian.mvConsumed mean covariance source.length k sameNames
@@ -96,21 +104,31 @@ def step (s : State) (toks : List String) : State × String :=
     match parseFp muS, parseFp varS, kS.toNat?, parseFps srcS with
     | some mu, some var, some k, some src => (s, answerDraw mu var k src)
     | _, _, _, _ => (s, "bad-op")
+  | "@" :: "drawf" :: _ :: _ :: kS :: srcS :: _ =>
+    -- f64 line: the model answers what the specification demands (count and consumption); the
+    -- harness compares the samples bit for bit with the documented formula
+    match kS.toNat? with
+    | some k =>
+      let len := (splitComma srcS).length
+      if len < Spec.Gaussian.needed k then (s, s!"none consumed={Spec.Gaussian.consumed len k}")
+      else (s, s!"some n={k} consumed={Spec.Gaussian.consumed len k} samples=ok")
+    | none => (s, "bad-op")
   | "@" :: "mv" :: nS :: kS :: rest =>
     let names := parseNames ((optArg "names" rest).getD "samples,features")
+    let own := parseNames ((optArg "mname" rest).getD "means") ++ parseNames ((optArg "cnames" rest).getD "u,v")
     if optArg "ty" rest = some "rat" then
       let rats := fun (key : String) => (optArg key rest).bind fun t => (splitComma t).mapM Driver.C08.parseRat
       match nS.toNat?, kS.toNat?, rats "mean", rats "cov", rats "src" with
       | some n, some k, some mean, some cov, some src =>
         if mean.length ≠ n ∨ cov.length ≠ n * n then (s, "bad-op")
-        else (s, answerMv showRat n k mean cov src names)
+        else (s, answerMv showRat n k mean cov src names own)
       | _, _, _, _, _ => (s, "bad-op")
     else
       match nS.toNat?, kS.toNat?, (optArg "mean" rest).bind parseFps, (optArg "cov" rest).bind parseFps,
           (optArg "src" rest).bind parseFps with
       | some n, some k, some mean, some cov, some src =>
         if mean.length ≠ n ∨ cov.length ≠ n * n then (s, "bad-op")
-        else (s, answerMv toString n k mean cov src names)
+        else (s, answerMv toString n k mean cov src names own)
       | _, _, _, _, _ => (s, "bad-op")
   | ["@", "approx", ty, dataS] =>
     if ty = "rat" then
